@@ -1815,7 +1815,9 @@ class SessionCache(object):
             provider = cache.database.provider
             try: provider.set_transaction_mode(connection, cache)  # can set cache.in_transaction
             except Exception as e: connection = cache.reconnect(e)
-        if not cache.noflush_counter and cache.modified: cache.flush()
+        if not cache.noflush_counter and cache.modified:
+            cache.flush()
+            connection = cache.connection  # flush() can reconnect
         return connection
     def flush_and_commit(cache):
         try: cache.flush()
